@@ -152,7 +152,7 @@ partial def expandLoop (tbl : Table) : XM Unit := do
               let mut pre : List Arg := []
               let mut i := 0
               for a in args do
-                if i ≥ m.needsExp.length || m.needsExp[i]! then
+                if (if m.variadic && i ≥ m.needsExp.length then m.needsExp.getLast?.getD true else (i ≥ m.needsExp.length || m.needsExp[i]!)) then
                   let e ← expandCall tbl a true
                   pre := pre ++ [⟨a, some e⟩]
                 else
